@@ -266,8 +266,11 @@ class HpcSubmitter:
                         submitted_jobs_by_name.add(job.name)
                         blocked_jobs_by_name.pop(job.name, None)
                     else:
-                        # Need to look at this job in the next round.
-                        highest_index -= 1
+                        # Need to look at this job in the next round. Only move the cursor
+                        # back if it points at this job; in later iterations it may point at
+                        # a job that is already in the batch.
+                        if i == highest_index:
+                            highest_index -= 1
                 if batch.is_ready_to_submit or len(submitted_jobs_by_name) == len(available_jobs):
                     done = True
                     break
